@@ -1048,8 +1048,14 @@ class TupleOf(Kind):
     def sort(self):
         raise EngineLimit("tuple has no single sort")
 
+    def __repr__(self):
+        return "Tuple(%s)" % ", ".join(repr(k) for k in self.kinds)
+
 
 class _OpaqueK(Kind):
+    def __repr__(self):
+        return "Node"
+
     def build(self, ctx, mk):
         return V.Opaque("parse tree node")
 
@@ -1519,6 +1525,9 @@ class ChainItemK(Kind):
     def unwrap(self, v):
         raise EngineLimit("a chain item cannot be built by the code under contract")
 
+    def __repr__(self):
+        return "ChainItem(right=%s)" % ("identifier" if self.named else "value")
+
 
 _orig_engine_call = Engine.call
 
@@ -1557,6 +1566,6 @@ def fold_term(ctx, seq: SymSeq, first: Obj, n, named: bool):
     try:
         ctx.add_axiom(z3.ForAll([i], body, patterns=[z3.MultiPattern(F(seq.arr, first.ref, i), it)]))
     except z3.Z3Exception:  # the sequence is not a plain array name (e.g. a slice): no explicit trigger
-        ctx.add_axiom(z3.ForAll([i], body, patterns=[F(seq.arr, first.ref, i)]))
+        ctx.add_axiom(z3.ForAll([i], body))
     ctx.add_axiom(F(seq.arr, first.ref, z3.IntVal(0)) == first.ref)
     return F(seq.arr, first.ref, n)
